@@ -334,7 +334,7 @@ def check(run):
         run.sample(slim(c))
     run.cov["rule"] = ("product: every policy kind (accessControl, rateLimit, jwt with secret, jwt with jwksURI, basicAuth, ingressMTLS, egressMTLS, oidc, apiKey, "
                        "waf with apPolicy+apLogConf, waf with bundles) x scope (server, route, subroute of a VirtualServerRoute, policies inherited by a VirtualServerRoute from "
-                       "the VirtualServer route) x failure mode (none; policy missing / invalid / foreign class; per Secret slot: missing, existed valid / invalid and never referenced but DELETED before the resource arrived (driven through the real LocalSecretStore), invalid, unsupported type, each of the five "
+                       "the VirtualServer route, the same with the VirtualServerRoute in ANOTHER namespace that holds a usable policy of the same name referenced by a sibling subroute) x failure mode (none; policy missing / invalid / foreign class; per Secret slot: missing, existed valid / invalid and never referenced but DELETED before the resource arrived (driven through the real LocalSecretStore), invalid, unsupported type, each of the five "
                        "other supported types, other type and invalid; ingressMTLS without TLS; a second OIDC policy; tiered rate limits with conflicting defaults; APPolicy / "
                        "APLogConf missing / invalid; bundle / log bundle missing; securityLogs lists of 2 and 3 entries (APLogConfs, log bundles) all usable or with the unusable entry at every position -- the last APLogConf also referenced by a second WAF policy so that the VirtualServer-wide reference map holds it) x position (alone, after a valid accessControl policy, before one, after a valid policy of the "
                        "same kind, and three positions with a second reference of the SAME NAME in another namespace: usable default/<name> then unusable other/<name>, usable "
